@@ -250,7 +250,14 @@ impl<T: Send + Sync + Debug + ZeroCopySend> Builder<'_, T> {
                 }
                 Err(SharedMemoryCreationError::MemoryMappingCreationError(
                     MemoryMappingCreationError::MappingSizeIsZero,
-                )) => (),
+                )) => {
+                    // the creator has not yet set the size; it may also have died before doing so
+                    if elapsed_time >= self.timeout {
+                        fail!(from self, with DynamicStorageOpenError::InitializationNotYetFinalized,
+                        "{} since it has a size of zero - (it is not initialized after {:?}).",
+                        msg, self.timeout);
+                    }
+                }
                 Err(e) => {
                     fail!(from self, with DynamicStorageOpenError::InternalError, "{} since the underlying shared memory could not be opened. Error: {:?}", msg, e);
                 }
